@@ -54,6 +54,7 @@ class Engine:
         self.pc = []
         self.inputs = {}        # name -> z3 var (per path, redeclared deterministically)
         self.path = None
+        self._model = None
 
     # -- atoms
     def atom(self, expr, lo=None, hi=None):
@@ -80,8 +81,35 @@ class Engine:
             return
         if isinstance(expr, SBool):
             expr = expr.e
+        if self._model is not None and self._model_says(expr) is not True:
+            self._model = None
         self.solver.add(expr)
         self.pc.append(expr)
+
+    def _model_says(self, expr):
+        """True/False if the cached model of the current PC decides expr, else None"""
+        m = self._model
+        if m is None:
+            return None
+        try:
+            v = m.eval(expr, model_completion=True)
+        except z3.Z3Exception:
+            return None
+        if z3.is_true(v):
+            return True
+        if z3.is_false(v):
+            return False
+        return None
+
+    def _check_model(self, *extra):
+        r = self._check(*extra)
+        m = None
+        if r == z3.sat:
+            try:
+                m = self.solver.model()
+            except z3.Z3Exception:
+                m = None
+        return r, m
 
     def decide(self, expr):
         expr = z3.simplify(expr)
@@ -91,12 +119,38 @@ class Engine:
             return False
         if self.pos < len(self.plan):
             taken = self.plan[self.pos][0]
+            if self._model is not None and self._model_says(expr) is not taken:
+                self._model = None            # cached model no longer satisfies the PC
         else:
             if len(self.plan) >= self.max_decisions:
                 raise DepthExceeded()
-            rt = self._check(expr)
+            if self._model is None:
+                r0, self._model = self._check_model()
+                if r0 == z3.unsat:
+                    raise PathAbort()
+            says = self._model_says(expr)
+            if says is True:
+                rt = z3.sat
+                rf, mf = self._check_model(z3.Not(expr))
+            elif says is False:
+                rf = z3.sat
+                rt, mt = self._check_model(expr)
+                if rt == z3.sat:
+                    self._model = mt
+                elif rt == z3.unknown:
+                    self._model = None
+            else:
+                rt, mt = self._check_model(expr)
+                rf = None
+                if rt == z3.sat:
+                    self._model = mt
+                else:
+                    self._model = None
             if rt == z3.unsat:
-                rf = self._check(z3.Not(expr))
+                if rf is None:
+                    rf, mf = self._check_model(z3.Not(expr))
+                    if rf == z3.sat:
+                        self._model = mf
                 if rf == z3.unsat:
                     raise PathAbort()           # PC itself is infeasible
                 taken = False
@@ -104,7 +158,8 @@ class Engine:
             else:
                 if rt == z3.unknown:
                     self.stats["unknown_branches"] += 1
-                rf = self._check(z3.Not(expr))
+                if rf is None:
+                    rf, mf = self._check_model(z3.Not(expr))
                 if rf == z3.unknown:
                     self.stats["unknown_branches"] += 1
                 taken = True
@@ -130,6 +185,8 @@ class Engine:
             self.bounds = {}
             self.keep = []
             self.inputs = {}
+            self._model = None
+            self._pending = []
             Engine.cur = self
             self.stats["paths"] += 1
             rec = PathRecord(self.stats["paths"])
@@ -148,6 +205,10 @@ class Engine:
                 rec.detail = str(ex)
                 self.stats["unmodelled"] += 1
             rec.decisions = self.pos
+            try:
+                self._discharge()
+            except z3.Z3Exception as ex:
+                rec.status, rec.detail = "unmodelled", f"z3: {ex}"
             if rec.status in ("ok", "depth", "unmodelled") and (rec.want_model or rec.status != "ok"):
                 # is this path's PC feasible at all?  (depth/unmodelled only matter if feasible)
                 r = self._check()
@@ -156,9 +217,10 @@ class Engine:
                     rec.model = self._model_values(self.solver.model(), rec)
             if _DEBUG and self.stats["paths"] % _DEBUG == 0:
                 import sys as _s
-                print("path", self.stats["paths"], rec.status, rec.detail, [(l, r) for l, r, _ in rec.claims][:12],
-                      "plan", len(self.plan), {k: (round(v, 1) if isinstance(v, float) else v)
-                                               for k, v in self.stats.items() if v}, file=_s.stderr, flush=True)
+                st = self.stats
+                print(f"[dbg] path {st['paths']} {rec.status} {rec.detail or ''} dec={st['decisions']} bq={st['branch_queries']} "
+                      f"cq={st['claim_queries']} unsat={st['claims_unsat']} sat={st['claims_sat']} unk={st['claims_unknown']} "
+                      f"fold={st['claims_trivial']} abort={st['aborted']} solver={st['solver_s']:.1f}s", file=_s.stderr, flush=True)
             if on_path is not None:
                 on_path(rec)
             rec.observed_sym = None
@@ -189,42 +251,62 @@ class Engine:
         return vals
 
     def claim(self, label, cond):
-        """cond: SBool | bool. Decide PC => cond with a fresh one-shot solver."""
+        """cond: SBool | bool.  Claims are queued and discharged at the end of the path (PC only
+        grows along a path and every continuation is explored, so this covers the same inputs):
+        first all together as one query  PC && !(c1 && ... && cn); only if that is not unsat,
+        one by one to find the failing claim and its model."""
         rec = self.path
-        if isinstance(cond, bool):
-            if cond:
-                self.stats["claims_trivial"] += 1
-                rec.claims.append((label, "unsat", None))
-                return
-            neg = None
-        else:
-            neg = z3.Not(cond.e)
+        if isinstance(cond, bool) and cond:
+            self.stats["claims_trivial"] += 1
+            rec.claims.append((label, "unsat", None))
+            return
+        self._pending.append((label, cond))
+
+    def _query(self, negs, label):
         s = z3.Solver()
         s.set("timeout", self.claim_timeout_ms)
         s.add(*self.pc)
-        if neg is not None:
-            s.add(neg)
+        s.add(*negs)
         t = time.time()
         self.stats["claim_queries"] += 1
         r = s.check()
-        self.stats["solver_s"] += time.time() - t
-        if _DEBUG and time.time() - t > 3:
+        dt = time.time() - t
+        self.stats["solver_s"] += dt
+        self.stats["claim_s"] = self.stats.get("claim_s", 0.0) + dt
+        if _DEBUG and dt > 3:
             import sys as _s
-            print(f"slow claim {label!r}: {r} {time.time() - t:.1f}s", file=_s.stderr, flush=True)
-        if r == z3.unsat:
-            self.stats["claims_unsat"] += 1
-            rec.claims.append((label, "unsat", None))
-        elif r == z3.sat:
-            self.stats["claims_sat"] += 1
-            m = s.model()
-            vals = {}
-            for name, var in self.inputs.items():
-                v = m.eval(var, model_completion=True)
-                vals[name] = v.as_long() if z3.is_int_value(v) else z3.is_true(v)
-            rec.claims.append((label, "sat", vals))
-        else:
-            self.stats["claims_unknown"] += 1
-            rec.claims.append((label, "unknown", None))
+            print(f"slow claim {label!r}: {r} {dt:.1f}s", file=_s.stderr, flush=True)
+        return r, s
+
+    def _discharge(self):
+        rec = self.path
+        pend, self._pending = self._pending, []
+        if not pend:
+            return
+        if len(pend) > 1 and all(not isinstance(c, bool) for _, c in pend):
+            r, _ = self._query([z3.Not(z3.And(*[c.e for _, c in pend]))], "all claims of the path")
+            if r == z3.unsat:
+                for label, _ in pend:
+                    self.stats["claims_unsat"] += 1
+                    rec.claims.append((label, "unsat", None))
+                return
+        for label, cond in pend:
+            negs = [] if isinstance(cond, bool) else [z3.Not(cond.e)]
+            r, s = self._query(negs, label)
+            if r == z3.unsat:
+                self.stats["claims_unsat"] += 1
+                rec.claims.append((label, "unsat", None))
+            elif r == z3.sat:
+                self.stats["claims_sat"] += 1
+                m = s.model()
+                vals = {}
+                for name, var in self.inputs.items():
+                    v = m.eval(var, model_completion=True)
+                    vals[name] = v.as_long() if z3.is_int_value(v) else z3.is_true(v)
+                rec.claims.append((label, "sat", vals))
+            else:
+                self.stats["claims_unknown"] += 1
+                rec.claims.append((label, "unknown", None))
 
     def reach(self, label, cond=True):
         """Reachability witness: is PC && cond satisfiable on this path?"""
@@ -412,6 +494,8 @@ class SInt:
 
     # -- arithmetic
     def __add__(self, o):
+        if type(o) is int and o == 0:
+            return self                  # identity-preserving: keeps the ord<->ymd provenance memo alive
         if isinstance(o, SFloat):
             return NotImplemented
         if isinstance(o, float):
@@ -442,6 +526,8 @@ class SInt:
         return self
 
     def __sub__(self, o):
+        if type(o) is int and o == 0:
+            return self
         if isinstance(o, SFloat):
             return NotImplemented
         if isinstance(o, float):
@@ -473,6 +559,8 @@ class SInt:
         o = SInt.lift(o)
         if o.is_const():
             k = o.c
+            if k == 1:
+                return self
             if k == 0:
                 return 0
             return _norm(SInt({i: (v, c * k) for i, (v, c) in self.t.items()}, self.c * k))
@@ -771,6 +859,29 @@ def table(idx, tbl, lo=0):
     return r
 
 
+class SymTuple(tuple):
+    """A constant table of the repository (DAYS_PER_MONTHS, ...) whose lookup with a symbolic
+    index is an ite-chain over the entries instead of a fork per entry (same semantics)."""
+
+    def __getitem__(self, i):
+        if isinstance(i, SBool):
+            i = ite(i, 1, 0)
+        if isinstance(i, SInt):
+            lo, hi = i.bounds()
+            n = len(self)
+            if (lo is not None and 0 <= lo and hi < n
+                    and all(isinstance(v, int) and not isinstance(v, bool) for v in tuple.__getitem__(self, slice(lo, hi + 1)))):
+                return table(i - lo, list(tuple.__getitem__(self, slice(lo, hi + 1))), 0)
+            i = i.concretize()
+        return tuple.__getitem__(self, i)
+
+
+def symtuple(t):
+    if isinstance(t, tuple) and not isinstance(t, SymTuple):
+        return SymTuple(symtuple(x) for x in t)
+    return t
+
+
 def smin(a, b):
     return ite(a <= b, a, b)
 
@@ -784,6 +895,7 @@ def sym_int(name, lo, hi):
     v = z3.Int(name)
     e.inputs[name] = v
     e.solver.add(v >= lo, v <= hi)
+    e._model = None
     e.pc.append(v >= lo)
     e.pc.append(v <= hi)
     return SInt.var(v, lo, hi)
@@ -803,6 +915,7 @@ def fresh_int(prefix, lo, hi):
     e._fresh = n + 1
     v = z3.Int(f"{prefix}!{e.stats['paths']}!{n}")
     e.solver.add(v >= lo, v <= hi)
+    e._model = None
     e.pc.append(v >= lo)
     e.pc.append(v <= hi)
     return SInt.var(v, lo, hi)
